@@ -65,6 +65,8 @@ structure StepInfo where
   page : Page
   unknown : Bool
   text : String
+  d : Decoded          -- what was decoded (for reporting; not used by the diagnostics)
+  tk : Bool            -- conditional part taken?
 deriving DecidableEq, Repr, Inhabited
 
 def opcodeText (bus : Bus) (pc : UInt16) (d : Decoded) : String :=
@@ -103,7 +105,7 @@ def dispatch (a : Arch) : Arch × UInt32 × StepInfo :=
     | _, _ => d.len
   let cyc := instrCycles d a
   let a' := exec d.instr len a
-  ({ a' with int := none }, cyc, ⟨d.page, d.instr = .unknown, opcodeText a.bus pc d⟩)
+  ({ a' with int := none }, cyc, ⟨d.page, d.instr = .unknown, opcodeText a.bus pc d, d, taken d.instr a⟩)
 
 def stepArch (a : Arch) : Arch × UInt32 × Option StepInfo :=
   if a.halt && !a.wakes then (a, 4, none) else
